@@ -12,7 +12,8 @@ res() { echo "RESULT $N $1"; }
 git apply MUTANT/patch.diff || { res "patch-does-not-apply"; exit 1; }
 B=$(go build ./... 2>&1 | grep -v "^#" | grep -v "unmarshal/legacy\|writer/http" | head -5)
 [ -n "$B" ] && { echo "$B"; res "build-fails"; exit 1; }
-T=$(go test -vet=off -count=1 ./... 2>&1 | grep -v "no test files" | grep "^FAIL\|^---" | grep -v "unmarshal/legacy\|writer/http\|^FAIL$")
+PKGS=$(go list ./... 2>/dev/null | grep -v "/MUTANT")
+T=$(go test -vet=off -count=1 $PKGS 2>&1 | grep -v "no test files" | grep "^FAIL\|^---" | grep -v "unmarshal/legacy\|writer/http\|qryn/MUTANT\|^FAIL$")
 [ -n "$T" ] && { echo "$T"; res "suite-fails-with-mutant"; exit 1; }
 bash -c "$DEMO" > /tmp/vm/$N.with.log 2>&1; W=$?; grep -q "^--- FAIL\|^FAIL" /tmp/vm/$N.with.log && W=1
 git apply -R MUTANT/patch.diff
